@@ -30,6 +30,7 @@ import (
 	shell_operator "github.com/flant/shell-operator/pkg/shell-operator"
 	"github.com/flant/shell-operator/pkg/task"
 	"github.com/flant/shell-operator/pkg/task/queue"
+	utils "github.com/flant/shell-operator/pkg/utils/file"
 	"gopkg.in/alecthomas/kingpin.v2"
 	"gopkg.in/yaml.v3"
 )
@@ -44,10 +45,14 @@ if [[ "$1" == "--config" ]]; then
   exit 0
 fi
 B=%q
-id=$(jq -r '.[0].binding' "$BINDING_CONTEXT_PATH")
+id=$(jq -r '.[0].binding' "$BINDING_CONTEXT_PATH" 2>/dev/null)
+if [[ -z "$id" ]]; then id="lost-$$"; fi
 R="$B/rec/$id"; S="$B/scripts/$id"
 mkdir -p "$R"
 pwd > "$R/pwd"
+for v in BINDING_CONTEXT_PATH METRICS_PATH CONVERSION_RESPONSE_PATH VALIDATING_RESPONSE_PATH ADMISSION_RESPONSE_PATH KUBERNETES_PATCH_PATH; do
+  if [[ -n "${!v}" && -f "${!v}" && -r "${!v}" && -w "${!v}" ]]; then echo 1; else echo 0; fi
+done > "$R/access"
 for v in BINDING_CONTEXT_PATH METRICS_PATH CONVERSION_RESPONSE_PATH VALIDATING_RESPONSE_PATH ADMISSION_RESPONSE_PATH KUBERNETES_PATCH_PATH; do
   echo "$v=${!v}"
 done > "$R/env"
@@ -62,6 +67,7 @@ done
 if [[ -f "$S/sleep" ]]; then sleep "$(cat "$S/sleep")"; fi
 if [[ -f "$S/stderr" ]]; then echo "hook $id complains on stderr" >&2; fi
 if [[ -f "$S/kill" ]]; then kill -KILL $$; fi
+if [[ ! -f "$S/exit" ]]; then exit 97; fi
 exit "$(cat "$S/exit")"
 `
 
@@ -87,10 +93,143 @@ type c12Exec struct {
 	pfmt                       string // patch text is a JSON stream ("json") or YAML ("yaml")
 	texted                     bool
 
+	// patch class "marked": the operations of the patch file (the own Create first), see c12Marked
+	pops []c12POp
+
 	// observed
 	status   string
 	admProp  bool
 	convProp bool
+}
+
+// one operation of a "marked" patch file
+type c12POp struct {
+	isPatch bool   // MergePatch / JSONPatch / JQPatch (a *patchOperation) — otherwise Create
+	ignore  bool   // ignoreHookError: true
+	sub     string // subresource
+	target  string // the ConfigMap it creates / patches
+}
+
+func c12Pm(ops []c12POp) string {
+	if len(ops) == 0 {
+		return "-"
+	}
+	var fs []string
+	for _, o := range ops {
+		k := "c"
+		if o.isPatch {
+			k = "p"
+		}
+		fs = append(fs, k+c13B01(o.ignore)+":"+c12Hex(o.sub))
+	}
+	return strings.Join(fs, ",")
+}
+
+func c12Mask(bs []bool) string {
+	if len(bs) == 0 {
+		return "-"
+	}
+	var fs []string
+	for _, b := range bs {
+		fs = append(fs, c13B01(b))
+	}
+	return strings.Join(fs, ",")
+}
+
+func c12TargetName(eid, i int) string { return fmt.Sprintf("c12-t-%d-%d", eid, i) }
+
+// one patch-type operation on target, as JSON or as a YAML document
+func c12PatchOpText(rng *Rng, typ string, o c12POp, asYAML bool, explicitFalse bool) string {
+	if asYAML {
+		t := fmt.Sprintf("operation: %s\napiVersion: v1\nkind: ConfigMap\nnamespace: default\nname: %s\n", typ, o.target)
+		if o.sub != "" {
+			t += fmt.Sprintf("subresource: %q\n", o.sub)
+		}
+		if o.ignore {
+			t += "ignoreHookError: true\n"
+		} else if explicitFalse {
+			t += "ignoreHookError: false\n"
+		}
+		switch typ {
+		case "MergePatch":
+			t += "mergePatch:\n  data:\n    p: \"1\"\n"
+		case "JSONPatch":
+			t += "jsonPatch:\n- op: add\n  path: /data/p\n  value: \"1\"\n"
+		default:
+			t += "jqFilter: '.data.p = \"1\"'\n"
+		}
+		return t
+	}
+	fields := []string{fmt.Sprintf(`"operation":"%s"`, typ), `"apiVersion":"v1"`, `"kind":"ConfigMap"`, `"namespace":"default"`, fmt.Sprintf(`"name":"%s"`, o.target)}
+	var extra []string
+	if o.sub != "" {
+		extra = append(extra, fmt.Sprintf(`"subresource":%q`, o.sub))
+	}
+	if o.ignore {
+		extra = append(extra, `"ignoreHookError":true`)
+	} else if explicitFalse {
+		extra = append(extra, `"ignoreHookError":false`)
+	}
+	switch typ {
+	case "MergePatch":
+		extra = append(extra, `"mergePatch":{"data":{"p":"1"}}`)
+	case "JSONPatch":
+		extra = append(extra, `"jsonPatch":[{"op":"add","path":"/data/p","value":"1"}]`)
+	default:
+		extra = append(extra, `"jqFilter":".data.p = \"1\""`)
+	}
+	// the markers before or after the payload
+	if rng.Bool() {
+		for i, j := 0, len(extra)-1; i < j; i, j = i+1, j-1 {
+			extra[i], extra[j] = extra[j], extra[i]
+		}
+	}
+	return "{" + strings.Join(append(fields, extra...), ",") + "}"
+}
+
+var c12PatchTypes = []string{"MergePatch", "JSONPatch", "JQPatch"}
+
+// the text of a "marked" patch file: the execution's own Create operation, then 1-4 patch-type
+// operations, each on its own pre-created ConfigMap, with every combination of the two markers
+// `ignoreHookError` and `subresource: /status` (kube-client/fake applies a patch of a subresource
+// to the object itself, so "applied" is visible as data.p = "1")
+func c12Marked(x *c12Exec, rng *Rng) (string, string) {
+	asYAML := rng.Chance(30)
+	own := c12POp{isPatch: false, target: c12ObjName(x.eid)}
+	if rng.Chance(25) { // the markers on an operation that is no patch: never eligible
+		own.ignore = true
+	}
+	x.pops = []c12POp{own}
+	var docs []string
+	if asYAML {
+		t := fmt.Sprintf("operation: Create\nobject:\n  apiVersion: v1\n  kind: ConfigMap\n  metadata:\n    name: %s\n    namespace: default\n  data:\n    k: v\n", own.target)
+		if own.ignore {
+			t += "ignoreHookError: true\n"
+		}
+		docs = append(docs, t)
+	} else {
+		ig := ""
+		if own.ignore {
+			ig = `,"ignoreHookError":true`
+		}
+		docs = append(docs, fmt.Sprintf(`{"operation":"Create","object":{"apiVersion":"v1","kind":"ConfigMap","metadata":{"name":"%s","namespace":"default"},"data":{"k":"v"}}%s}`, own.target, ig))
+	}
+	n := rng.Range(1, 4)
+	for i := 1; i <= n; i++ {
+		o := c12POp{isPatch: true, ignore: rng.Bool(), target: c12TargetName(x.eid, i)}
+		switch r := rng.Intn(100); {
+		case r < 50:
+			o.sub = "/status"
+		case r < 58: // other subresources / spellings: not the status subresource of the exception
+			o.sub = PickOne(rng, []string{"/scale", "status", "/Status", "/status/"})
+		}
+		x.pops = append(x.pops, o)
+		docs = append(docs, c12PatchOpText(rng, PickOne(rng, c12PatchTypes), o, asYAML, rng.Chance(30)))
+	}
+	if asYAML {
+		return strings.Join(docs, "---\n"), "yaml"
+	}
+	return strings.Join(docs, PickOne(rng, []string{"\n", "\n", " ", ""})) + "\n", "json"
 }
 
 var c12MetricsClasses = []string{"empty", "valid", "badbatch", "truncated", "wrongtype", "deleted"}
@@ -102,7 +241,7 @@ var c12PatchClasses = []string{"empty", "valid", "applyerr", "invaliddoc", "trun
 var c12MalformedShapes = []string{"strayclose", "garbage", "badtoken", "blank"}
 var c12MetricsClassesAll = append(append([]string{}, c12MetricsClasses...), c12MalformedShapes...)
 var c12RespClassesAll = append(append(append([]string{}, c12RespClasses...), c12MalformedShapes...), "twodocs")
-var c12PatchClassesAll = append(append([]string{}, c12PatchClasses...), c12MalformedShapes...)
+var c12PatchClassesAll = append(append(append([]string{}, c12PatchClasses...), c12MalformedShapes...), "marked")
 
 // does a YAML reader accept the whole text (as a sequence of documents of any shape)?
 func c12IsYAML(text string) bool {
@@ -373,9 +512,68 @@ type c12Env struct {
 	hookMetrics                               *metricstorage.MetricStorage
 	cancel                                    context.CancelFunc
 	setting                                   *string // value of --debug-keep-tmp-files the case runs with (nil: the default)
+	restoreCwd                                func()  // configured directories: back to the harness's working directory
+	dirsObs                                   string  // configured directories: what the plumbing returned (flags of `oracle dirs`)
+	setupFailed                               bool    // the plumbing refused the directories
 }
 
 func c12Setup(r *Run, c *Case, hookFiles []string) (*c12Env, error) {
+	return c12SetupCfg(r, c, hookFiles, nil)
+}
+
+// How the operator is told its two directories (fourth wave). nil = the harness hands absolute,
+// canonical paths straight to the hook manager. Otherwise the case plays bootstrap.go: the process
+// changes into the operator's working directory, --hooks-dir / --tmp-dir (or SHELL_OPERATOR_HOOKS_DIR /
+// SHELL_OPERATOR_TMP_DIR) go through the real flag definitions, then RequireExistingDirectory and
+// EnsureTempDirectory, and what they return goes to the hook manager.
+type c12DirCfg struct {
+	tmpInCwd   bool   // the temp dir lies inside the operator's working directory (else: a sibling of it)
+	hooksInCwd bool   // same for the hooks dir
+	tmpSpell   string // how the directory is spelled: abs rel dotrel relslash reldots absdirty absdots rellink abslink
+	hooksSpell string
+	tmpExists  bool // the temp dir exists before the start (else EnsureTempDirectory creates it)
+	viaEnv     bool
+}
+
+var c12Spellings = []string{"abs", "rel", "dotrel", "relslash", "reldots", "absdirty", "absdots", "rellink", "abslink"}
+
+// spell the directory `real` (absolute, canonical) as seen from the working directory cwd; link is
+// where a symbolic link to it may be put (inside cwd)
+func c12Spell(kind, cwd, real, link string) (string, error) {
+	rel, err := filepath.Rel(cwd, real)
+	if err != nil {
+		return "", err
+	}
+	switch kind {
+	case "abs":
+		return real, nil
+	case "rel":
+		return rel, nil
+	case "dotrel":
+		return "./" + rel, nil
+	case "relslash":
+		return rel + "/", nil
+	case "reldots": // through an existing sub-directory and back
+		return "sub/../" + rel, nil
+	case "absdirty":
+		return strings.Replace(filepath.Dir(real), "/", "//", 1) + "/./" + filepath.Base(real) + "/", nil
+	case "absdots":
+		return real + "/../" + filepath.Base(real), nil
+	case "rellink", "abslink":
+		if err := os.Symlink(real, link); err != nil {
+			return "", err
+		}
+		if kind == "rellink" {
+			return filepath.Base(link), nil
+		}
+		return link, nil
+	}
+	return "", fmt.Errorf("unknown spelling %q", kind)
+}
+
+var c12CwdMu sync.Mutex // the working directory is process-global: configured cases run one at a time
+
+func c12SetupCfg(r *Run, c *Case, hookFiles []string, cfg *c12DirCfg) (*c12Env, error) {
 	e := &c12Env{dir: filepath.Join(r.Scratch, fmt.Sprintf("c12-%d", c.Idx))}
 	if abs, err := filepath.Abs(r.Scratch); err == nil {
 		if d, err := filepath.EvalSymlinks(abs); err == nil {
@@ -386,7 +584,23 @@ func c12Setup(r *Run, c *Case, hookFiles []string) (*c12Env, error) {
 	e.tmpDir = filepath.Join(e.dir, "tmp")
 	e.recDir = filepath.Join(e.dir, "rec")
 	e.scriptsDir = filepath.Join(e.dir, "scripts")
-	for _, d := range []string{e.hooksDir, e.tmpDir, e.recDir, e.scriptsDir} {
+	opCwd := filepath.Join(e.dir, "opcwd")
+	if cfg != nil {
+		if cfg.hooksInCwd {
+			e.hooksDir = filepath.Join(opCwd, "hooks")
+		}
+		if cfg.tmpInCwd {
+			e.tmpDir = filepath.Join(opCwd, "tmp")
+		}
+	}
+	mk := []string{e.hooksDir, e.recDir, e.scriptsDir}
+	if cfg == nil || cfg.tmpExists {
+		mk = append(mk, e.tmpDir)
+	}
+	if cfg != nil {
+		mk = append(mk, opCwd, filepath.Join(opCwd, "sub"), filepath.Dir(e.tmpDir))
+	}
+	for _, d := range mk {
 		if err := os.MkdirAll(d, 0o755); err != nil {
 			return nil, err
 		}
@@ -403,12 +617,54 @@ func c12Setup(r *Run, c *Case, hookFiles []string) (*c12Env, error) {
 	}
 	e.hookNames = hookFiles
 
+	// the directories as the operator gets them
+	hooksArg, tmpArg := e.hooksDir, e.tmpDir
+	if cfg != nil {
+		back, err := os.Getwd()
+		if err != nil {
+			return nil, err
+		}
+		if err := os.Chdir(opCwd); err != nil {
+			return nil, err
+		}
+		e.restoreCwd = func() { _ = os.Chdir(back) }
+		hooksSpelled, err := c12Spell(cfg.hooksSpell, opCwd, e.hooksDir, filepath.Join(opCwd, "hooks-link"))
+		if err != nil {
+			e.restoreCwd()
+			return nil, err
+		}
+		tmpSpelled, err := c12Spell(cfg.tmpSpell, opCwd, e.tmpDir, filepath.Join(opCwd, "tmp-link"))
+		if err != nil {
+			e.restoreCwd()
+			return nil, err
+		}
+		gotHooks, gotTmp, err := c12ConfigureDirs(hooksSpelled, tmpSpelled, cfg.viaEnv)
+		if err != nil {
+			e.restoreCwd()
+			return nil, fmt.Errorf("flag parse: %w", err)
+		}
+		// bootstrap.go: Init
+		hooksRet, herr := utils.RequireExistingDirectory(gotHooks)
+		tmpRet, terr := utils.EnsureTempDirectory(gotTmp)
+		// what the plumbing returned names — from the operator's working directory — the configured
+		// directories, and they exist
+		e.dirsObs = fmt.Sprintf("hookserr=%s tmperr=%s hooks=%s tmp=%s", c13B01(herr != nil), c13B01(terr != nil),
+			c13B01(herr == nil && c12SameDir(hooksRet, e.hooksDir)), c13B01(terr == nil && c12SameDir(tmpRet, e.tmpDir)))
+		if herr != nil || terr != nil {
+			e.restoreCwd()
+			e.setupFailed = true
+			return e, nil
+		}
+		hooksArg, tmpArg = hooksRet, tmpRet
+	}
+
 	ctx, cancel := context.WithCancel(context.Background())
 	e.cancel = cancel
 	nop := log.NewNop()
 	e.fc = fake.NewFakeCluster(fake.ClusterVersionV119)
 	e.fc.CreateNs("default")
 	if err := e.fc.Create("default", manifest.MustFromYAML("apiVersion: v1\nkind: ConfigMap\nmetadata:\n  name: existing\n  namespace: default\ndata:\n  k: v\n")); err != nil {
+		e.close()
 		return nil, err
 	}
 	op := shell_operator.NewShellOperator(ctx, shell_operator.WithLogger(nop))
@@ -418,7 +674,7 @@ func c12Setup(r *Run, c *Case, hookFiles []string) (*c12Env, error) {
 	op.KubeClient = e.fc.Client
 	op.ObjectPatcher = objectpatch.NewObjectPatcher(e.fc.Client, nop)
 	op.TaskQueues = queue.NewTaskQueueSet()
-	op.HookManager = hook.NewHookManager(&hook.ManagerConfig{WorkingDir: e.hooksDir, TempDir: e.tmpDir, Logger: nop})
+	op.HookManager = hook.NewHookManager(&hook.ManagerConfig{WorkingDir: hooksArg, TempDir: tmpArg, Logger: nop})
 	// ETXTBSY: a script just written can still be open for writing in a child forked concurrently by
 	// another case (the descriptor is closed on exec); a property of fork/exec, not of the code under test.
 	var initErr error
@@ -429,17 +685,69 @@ func c12Setup(r *Run, c *Case, hookFiles []string) (*c12Env, error) {
 		time.Sleep(20 * time.Millisecond)
 	}
 	if initErr != nil {
+		e.close()
 		return nil, fmt.Errorf("hook manager init: %w", initErr)
 	}
 	e.op = op
 	return e, nil
 }
 
-func (e *c12Env) close() { e.cancel() }
+// --hooks-dir / --tmp-dir the way the operator gets them: the real flag definitions
+// (app.DefineStartCommandFlags), on the command line or through the documented environment variables
+func c12ConfigureDirs(hooks, tmp string, viaEnv bool) (string, string, error) {
+	oldH, oldT := app.HooksDir, app.TempDir
+	defer func() { app.HooksDir, app.TempDir = oldH, oldT }()
+	kp := kingpin.New("shell-operator", "")
+	kp.Terminate(func(int) {})
+	cmd := kp.Command("start", "")
+	app.DefineStartCommandFlags(kp, cmd)
+	args := []string{"start"}
+	if viaEnv {
+		_ = os.Setenv("SHELL_OPERATOR_HOOKS_DIR", hooks)
+		_ = os.Setenv("SHELL_OPERATOR_TMP_DIR", tmp)
+		defer os.Unsetenv("SHELL_OPERATOR_HOOKS_DIR")
+		defer os.Unsetenv("SHELL_OPERATOR_TMP_DIR")
+	} else {
+		args = append(args, "--hooks-dir="+hooks, "--tmp-dir="+tmp)
+	}
+	if _, err := kp.Parse(args); err != nil {
+		return "", "", err
+	}
+	return app.HooksDir, app.TempDir, nil
+}
+
+func (e *c12Env) close() {
+	if e.cancel != nil {
+		e.cancel()
+	}
+	if e.restoreCwd != nil {
+		e.restoreCwd()
+	}
+}
+
+// the ConfigMaps the patch-type operations of a "marked" patch file work on
+func (e *c12Env) createTargets(x *c12Exec) error {
+	for _, o := range x.pops {
+		if !o.isPatch {
+			continue
+		}
+		if err := e.fc.Create("default", manifest.MustFromYAML(fmt.Sprintf("apiVersion: v1\nkind: ConfigMap\nmetadata:\n  name: %s\n  namespace: default\ndata:\n  k: v\n", o.target))); err != nil {
+			return err
+		}
+	}
+	return nil
+}
 
 func (e *c12Env) writeScripts(x *c12Exec, rng *Rng) error {
 	d := filepath.Join(e.scriptsDir, fmt.Sprintf("exec-%d", x.eid))
 	if err := os.MkdirAll(d, 0o755); err != nil {
+		return err
+	}
+	if x.patch == "marked" && !x.texted {
+		// decided first (and only here): the operations and their markers
+		x.ptext, x.pfmt = c12Marked(x, rng)
+	}
+	if err := e.createTargets(x); err != nil {
 		return err
 	}
 	if x.texted { // corpus: the texts are given
@@ -455,9 +763,17 @@ func (e *c12Env) writeScripts(x *c12Exec, rng *Rng) error {
 		}
 		return os.WriteFile(filepath.Join(d, "exit"), []byte(fmt.Sprint(x.exit)), 0o644)
 	}
-	x.pfmt = "json"
+	if x.patch != "marked" {
+		x.pfmt = "json"
+	}
 	for _, kc := range [][2]string{{"metrics", x.metrics}, {"admission", x.adm}, {"conversion", x.conv}, {"patch", x.patch}} {
 		kind, class := kc[0], kc[1]
+		if kind == "patch" && class == "marked" {
+			if err := os.WriteFile(filepath.Join(d, kind), []byte(x.ptext), 0o644); err != nil {
+				return err
+			}
+			continue
+		}
 		if class == "deleted" {
 			if err := os.WriteFile(filepath.Join(d, kind+".delete"), nil, 0o644); err != nil {
 				return err
@@ -556,6 +872,50 @@ func (e *c12Env) objectExists(name string) bool {
 	return err == nil
 }
 
+// did operation i of a "marked" patch file take effect: the own Create made the object, a patch set data.p
+func (e *c12Env) opsApplied(x *c12Exec) []bool {
+	var out []bool
+	gvr := e.fc.MustFindGVR("v1", "ConfigMap")
+	for _, o := range x.pops {
+		if !o.isPatch {
+			out = append(out, e.objectExists(o.target))
+			continue
+		}
+		obj, err := e.fc.Client.Dynamic().Resource(*gvr).Namespace("default").Get(context.TODO(), o.target, metav1.GetOptions{})
+		if err != nil {
+			out = append(out, false)
+			continue
+		}
+		data, _ := obj.Object["data"].(map[string]any)
+		out = append(out, data != nil && data["p"] == "1")
+	}
+	return out
+}
+
+// ParseOperations + GetPatchStatusOperationsOnHookError on the text of the patch file: which
+// operations (by position) does the filter keep
+func c12FilterObs(x *c12Exec) string {
+	return Catch(func() string {
+		ops, err := objectpatch.ParseOperations([]byte(x.ptext))
+		if err != nil {
+			return "parse-error"
+		}
+		if len(ops) != len(x.pops) {
+			return fmt.Sprintf("parsed=%d", len(ops))
+		}
+		kept := objectpatch.GetPatchStatusOperationsOnHookError(ops)
+		mask := make([]bool, len(ops))
+		for i, o := range ops {
+			for _, k := range kept {
+				if k == o {
+					mask[i] = true
+				}
+			}
+		}
+		return "kept=" + c12Mask(mask)
+	})
+}
+
 func (e *c12Env) metricPresent(name string) bool {
 	mfs, err := e.hookMetrics.Gatherer.Gather()
 	if err != nil {
@@ -594,13 +954,21 @@ func (e *c12Env) envObs(x *c12Exec) (string, []string) {
 			env[l[:i]] = l[i+1:]
 		}
 	}
-	pwdOK := read("pwd") == filepath.Dir(h.Path)
+	// the directories as the hook process sees them: a relative value is resolved from the hook's own
+	// working directory; "the same directory" is decided by the file system (device + inode), so that
+	// non-canonical spellings of the configured directories (.., //, symbolic links) do not matter
+	hookPwd := read("pwd")
+	pwdOK := c12SameDir(hookPwd, filepath.Dir(h.Path)) && c12SameDir(hookPwd, filepath.Join(e.hooksDir, filepath.Dir(e.hookNames[x.hook])))
 	dirOK := len(env) > 0
 	for _, p := range env {
-		if filepath.Dir(p) != e.tmpDir {
+		if !filepath.IsAbs(p) {
+			p = filepath.Join(hookPwd, p)
+		}
+		if !c12SameDir(filepath.Dir(p), e.tmpDir) {
 			dirOK = false
 		}
 	}
+	accessOK := read("access") == "1\n1\n1\n1\n1\n1"
 	pats := map[string]string{
 		"BINDING_CONTEXT_PATH":     `^hook-` + safe + `-binding-context-` + c12UUID + `\.json$`,
 		"METRICS_PATH":             `^hook-` + safe + `-metrics-` + c12UUID + `\.json$`,
@@ -621,7 +989,30 @@ func (e *c12Env) envObs(x *c12Exec) (string, []string) {
 	ctxOK := json.Unmarshal([]byte(read("context")), &got) == nil && reflect.DeepEqual(got, any(want))
 	aliasOK := env["VALIDATING_RESPONSE_PATH"] != "" && env["VALIDATING_RESPONSE_PATH"] == env["ADMISSION_RESPONSE_PATH"]
 	names := []string{env["BINDING_CONTEXT_PATH"], env["METRICS_PATH"], env["CONVERSION_RESPONSE_PATH"], env["ADMISSION_RESPONSE_PATH"], env["KUBERNETES_PATCH_PATH"]}
-	return fmt.Sprintf("inherit=%d vars=%d pwd=%s dir=%s pattern=%s sizes=%s ctx=%s alias=%s", c12InheritedVars(), len(env), c13B01(pwdOK), c13B01(dirOK), c13B01(patOK), c13B01(sizesOK), c13B01(ctxOK), c13B01(aliasOK)), names
+	return fmt.Sprintf("inherit=%d vars=%d pwd=%s dir=%s pattern=%s sizes=%s ctx=%s alias=%s access=%s", c12InheritedVars(), len(env), c13B01(pwdOK), c13B01(dirOK), c13B01(patOK), c13B01(sizesOK), c13B01(ctxOK), c13B01(aliasOK), c13B01(accessOK)), names
+}
+
+// do two paths name the same existing directory
+func c12SameDir(a, b string) bool {
+	sa, err1 := os.Stat(a)
+	sb, err2 := os.Stat(b)
+	return err1 == nil && err2 == nil && sa.IsDir() && sb.IsDir() && os.SameFile(sa, sb)
+}
+
+// a hook process that could not read its binding context (the variable does not point to the file)
+// recorded under rec/lost-<pid>: hand these records to the executions that have none
+func (e *c12Env) adoptLostRecords(xs []*c12Exec) {
+	lost, _ := filepath.Glob(filepath.Join(e.recDir, "lost-*"))
+	sort.Strings(lost)
+	for _, x := range xs {
+		rd := filepath.Join(e.recDir, fmt.Sprintf("exec-%d", x.eid))
+		if _, err := os.Stat(rd); err == nil || len(lost) == 0 {
+			continue
+		}
+		if os.Rename(lost[0], rd) == nil {
+			lost = lost[1:]
+		}
+	}
 }
 
 // ---------------------------------------------------------------- the operator's own environment
@@ -697,19 +1088,27 @@ func (x *c12Exec) line() string {
 	if pf == "" {
 		pf = "json"
 	}
-	return fmt.Sprintf("exec %d hook=%d q=%d nctx=%d allow=%s exit=%d metrics=%s adm=%s conv=%s patch=%s mt=%s at=%s ct=%s pt=%s pf=%s",
+	return fmt.Sprintf("exec %d hook=%d q=%d nctx=%d allow=%s exit=%d metrics=%s adm=%s conv=%s patch=%s mt=%s at=%s ct=%s pt=%s pf=%s pm=%s",
 		x.eid, x.hook, x.q, x.nctx, c13B01(x.allow), x.exit, x.metrics, x.adm, x.conv, x.patch,
-		c12Hex(x.mtext), c12Hex(x.atext), c12Hex(x.ctext), c12Hex(x.ptext), pf)
+		c12Hex(x.mtext), c12Hex(x.atext), c12Hex(x.ctext), c12Hex(x.ptext), pf, c12Pm(x.pops))
 }
 
 // report: one exec line + oracles per execution (in eid order), then the temp dir and the names
 func (e *c12Env) report(c *Case, xs []*c12Exec) {
 	var all []string
+	e.adoptLostRecords(xs)
 	for _, x := range xs {
 		p, m := e.objectExists(c12ObjName(x.eid)), e.metricPresent(c12MetricName(x.eid))
 		obs := fmt.Sprintf("status=%s patch=%s metrics=%s adm=%s conv=%s", x.status, c13B01(p), c13B01(m), c13B01(x.admProp), c13B01(x.convProp))
-		c.Op(x.line(), obs)
+		applied := e.opsApplied(x)
+		c.Op(x.line(), obs+" ops="+c12Mask(applied))
 		c.Oracle(fmt.Sprintf("outcome eid=%d %s", x.eid, obs))
+		if len(x.pops) > 0 {
+			// which operations of the patch file took effect in the cluster
+			c.Oracle(fmt.Sprintf("ops eid=%d applied=%s", x.eid, c12Mask(applied)))
+			// the real reader + the real filter of the error branch on the very text the hook wrote
+			c.Op("filter pm="+c12Pm(x.pops), c12FilterObs(x))
+		}
 		envLine, names := e.envObs(x)
 		c.Oracle(fmt.Sprintf("env eid=%d %s", x.eid, envLine))
 		all = append(all, names...)
@@ -816,6 +1215,11 @@ func c12GenExec(rng *Rng, eid, nhooks, nq int) *c12Exec {
 	x.adm = c12PickClass(rng, c12RespClassesAll)
 	x.conv = c12PickClass(rng, c12RespClassesAll)
 	x.patch = c12PickClass(rng, c12PatchClassesAll)
+	if rng.Chance(12) || (x.exit != 0 && rng.Chance(45)) {
+		// operations with / without the two markers of the "on hook error" exception; a failing hook
+		// leaves such a file behind in about half of the cases
+		x.patch = "marked"
+	}
 	return x
 }
 
@@ -835,10 +1239,34 @@ func c12Notes(c *Case, xs []*c12Exec) {
 		c.Note("admission:" + x.adm)
 		c.Note("conversion:" + x.conv)
 		c.Note("patch:" + x.patch)
+		if x.exit != 0 {
+			for _, o := range x.pops {
+				if o.isPatch {
+					c.Note(fmt.Sprintf("failed-hook-patch:ignoreHookError=%s,status=%s", c13B01(o.ignore), c13B01(o.sub == "/status")))
+				}
+			}
+		}
 	}
 }
 
-func c12Random(r *Run) func(c *Case, rng *Rng) {
+func c12GenDirCfg(rng *Rng) *c12DirCfg {
+	cfg := &c12DirCfg{tmpInCwd: rng.Chance(60), hooksInCwd: rng.Chance(50), tmpExists: rng.Chance(60), viaEnv: rng.Chance(30)}
+	// relative spellings are the common way to run the operator from a checkout; the rest evenly
+	cfg.tmpSpell = PickOne(rng, append([]string{"rel", "rel", "dotrel"}, c12Spellings...))
+	// (the hooks dir is not spelled through a symbolic link: the hook search does not follow a link at
+	// its root and takes the link itself for a hook file — hook discovery is C20's subject)
+	cfg.hooksSpell = PickOne(rng, append([]string{"rel", "rel"}, c12Spellings[:7]...))
+	if strings.HasSuffix(cfg.tmpSpell, "link") {
+		cfg.tmpExists = true // a dangling link is no directory and cannot be created over
+	}
+	return cfg
+}
+
+func c12Random(r *Run) func(c *Case, rng *Rng) { return c12RandomCfg(r, nil) }
+
+// gen != nil: the case runs with configured directories (see c12DirCfg) — one at a time, the working
+// directory is process-global
+func c12RandomCfg(r *Run, gen func(rng *Rng) *c12DirCfg) func(c *Case, rng *Rng) {
 	return func(c *Case, rng *Rng) {
 		rng = c13Reseed(rng) // see c13.go: neighbouring cases must not share their random numbers
 		nh := rng.Range(1, 3)
@@ -850,12 +1278,32 @@ func c12Random(r *Run) func(c *Case, rng *Rng) {
 			longLen = PickOne(rng, []int{189, 189, 190, 191, 192, 193})
 			hookFiles = append(append([]string{}, hookFiles...), c12LongHook(longLen))
 		}
-		env, err := c12Setup(r, c, hookFiles)
+		var cfg *c12DirCfg
+		if gen != nil {
+			cfg = gen(rng)
+			c12CwdMu.Lock()
+			defer c12CwdMu.Unlock()
+		}
+		env, err := c12SetupCfg(r, c, hookFiles, cfg)
 		if err != nil {
 			c.Op("setup", "harness-error "+err.Error())
 			return
 		}
 		defer env.close()
+		if cfg != nil {
+			c.Note("tmp-dir-spelling:" + cfg.tmpSpell)
+			c.Note("hooks-dir-spelling:" + cfg.hooksSpell)
+			c.Note(fmt.Sprintf("tmp-dir-exists-before-start:%v", cfg.tmpExists))
+			c.Note(fmt.Sprintf("tmp-dir-in-cwd:%v hooks-dir-in-cwd:%v", cfg.tmpInCwd, cfg.hooksInCwd))
+			// the plumbing must accept every spelling of an existing hooks dir and of an existing or
+			// creatable temp dir, and return names of exactly these directories
+			c.Oracle("dirs " + env.dirsObs)
+			if env.setupFailed {
+				c.Desc = "configured directories refused"
+				c.Nontrivial = true
+				return
+			}
+		}
 		n := rng.Range(1, 6)
 		nq := rng.Range(1, 3)
 		var xs []*c12Exec
@@ -893,7 +1341,9 @@ func runC12(r *Run) {
 		"files (empty, valid in many spellings — white space, every number form, escapes, ignored fields —, cut inside a record, wrong type, stray closing brackets at a record boundary, leading / trailing garbage, bad tokens, blank, second document, deleted; metrics also valid-but-rejected batch; patch also failing application and invalid document, JSON or YAML); the text goes to the Lean driver, which decides from it whether the file is well-formed; " +
 		"a third of the cases run with an operator process whose own environment already holds (all / some of) the six path variables; at the end 8 (thorough: 17) values of --debug-keep-tmp-files, each through the real flag definition (command line or DEBUG_KEEP_TMP_FILES) before the hooks are loaded; " +
 		"every execution goes through the real taskHandler -> handleRunHook -> Hook.Run with a real process, real MetricStorage and kube-client/fake; " +
-		"the hook records pwd, the six path variables, initial file sizes and the context file. 35% of the cases add a hook whose name (189-193 characters) makes the creation of the 4th / 3rd / 1st temp file fail (NAME_MAX) and run it once more at the end: not started, failed, nothing left behind. Non-trivial = at least 2 executions or a non-empty output/non-zero exit."
+		"the hook records pwd, the six path variables, initial file sizes and the context file, and checks from its own working directory that every variable names a file it can read and write. " +
+		"Fourth wave: 12% of the executions (45% of those with a non-zero exit) write a patch file of 1-4 MergePatch / JSONPatch / JQPatch operations, each on its own object, with every combination of ignoreHookError and subresource (none, /status, other spellings) plus the own Create — which of them took effect is observed per operation; " +
+		"24 (thorough: 160) further cases run one at a time with the directories configured the way bootstrap.go does it: the process changes into an operator working directory that is not the hooks directory, --hooks-dir / --tmp-dir (or the environment variables) go through the real flag definitions, RequireExistingDirectory and EnsureTempDirectory, spelled absolute, relative, ./relative, with a trailing slash, through sub/.., with // and /./, through dir/../dir, through a relative or absolute symbolic link; the temp dir existing or not before the start, inside or beside the working directory. 35% of the cases add a hook whose name (189-193 characters) makes the creation of the 4th / 3rd / 1st temp file fail (NAME_MAX) and run it once more at the end: not started, failed, nothing left behind. Non-trivial = at least 2 executions or a non-empty output/non-zero exit."
 	app.DebugKeepTmpFilesVar = "no"
 
 	// corpus 0: every failure stage in one case, sequentially
@@ -1112,6 +1562,83 @@ func runC12(r *Run) {
 			undo()
 		}
 	}
+
+	// fourth wave: the operator is told its directories the way bootstrap.go does it (flags / env
+	// variables -> RequireExistingDirectory / EnsureTempDirectory -> hook manager), in its own working
+	// directory, which is not the hooks directory. One at a time: the working directory is process-global.
+	{
+		// corpus 7: `--tmp-dir=tmp --hooks-dir=hooks` from a checkout, second start (tmp/ is there)
+		fixed := []*c12DirCfg{
+			{tmpInCwd: true, hooksInCwd: true, tmpSpell: "rel", hooksSpell: "rel", tmpExists: true},
+			{tmpInCwd: true, hooksInCwd: false, tmpSpell: "dotrel", hooksSpell: "abs", tmpExists: false},
+			{tmpInCwd: false, hooksInCwd: true, tmpSpell: "rellink", hooksSpell: "reldots", tmpExists: true, viaEnv: true},
+			{tmpInCwd: false, hooksInCwd: false, tmpSpell: "rel", hooksSpell: "rel", tmpExists: true},
+		}
+		for i, f := range fixed {
+			f := f
+			r.Cases(7+i, 1, 1, c12RandomCfg(r, func(*Rng) *c12DirCfg { return f }))
+		}
+		r.Cases(70000, r.N(24, 160), 1, c12RandomCfg(r, c12GenDirCfg))
+	}
+
+	// corpus 6: the patch file of a FAILED hook — every combination of the two markers of the "on hook
+	// error" exception, for each patch type, JSON and YAML; the same file after a zero exit
+	r.One(6, func(c *Case, rng *Rng) {
+		env, err := c12Setup(r, c, c12HookFiles[:2])
+		if err != nil {
+			c.Op("setup", "harness-error "+err.Error())
+			return
+		}
+		defer env.close()
+		var xs []*c12Exec
+		for ti, typ := range c12PatchTypes {
+			for _, asYAML := range []bool{false, true} {
+				for _, exit := range []int{1, 0} {
+					eid := len(xs) + 1
+					x := &c12Exec{eid: eid, hook: eid % 2, q: 1 + ti%2, exit: exit, nctx: 1, texted: true, pfmt: "json",
+						metrics: "empty", adm: "empty", conv: "empty", patch: "marked"}
+					if exit != 0 && ti == 1 {
+						x.exit = PickOne(rng, []int{2, 3, 127, 255})
+					}
+					// the own Create first (never eligible on an error, marked or not)
+					own := c12POp{isPatch: false, ignore: asYAML, target: c12ObjName(eid)}
+					x.pops = append(x.pops, own)
+					var docs []string
+					if asYAML {
+						docs = append(docs, fmt.Sprintf("operation: Create\nignoreHookError: true\nobject:\n  apiVersion: v1\n  kind: ConfigMap\n  metadata:\n    name: %s\n    namespace: default\n", own.target))
+					} else {
+						docs = append(docs, fmt.Sprintf(`{"operation":"Create","object":{"apiVersion":"v1","kind":"ConfigMap","metadata":{"name":"%s","namespace":"default"}}}`, own.target))
+					}
+					for i, m := range [][2]bool{{false, false}, {true, false}, {false, true}, {true, true}} {
+						o := c12POp{isPatch: true, ignore: m[0], target: c12TargetName(eid, i+1)}
+						if m[1] {
+							o.sub = "/status"
+						}
+						x.pops = append(x.pops, o)
+						docs = append(docs, c12PatchOpText(rng, typ, o, asYAML, false))
+					}
+					if asYAML {
+						x.ptext, x.pfmt = strings.Join(docs, "---\n"), "yaml"
+					} else {
+						x.ptext = strings.Join(docs, "\n") + "\n"
+					}
+					xs = append(xs, x)
+				}
+			}
+		}
+		for _, x := range xs {
+			if err := env.writeScripts(x, rng); err != nil {
+				c.Op("setup", "harness-error "+err.Error())
+				return
+			}
+		}
+		env.runAll(xs)
+		env.report(c, xs)
+		c12Notes(c, xs)
+		c.Note("corpus")
+		c.Desc = "corpus: a failing (and a succeeding) hook leaves patch operations with / without ignoreHookError and subresource /status behind, MergePatch / JSONPatch / JQPatch, JSON and YAML"
+		c.Nontrivial = true
+	})
 
 	if r.Thorough() {
 		// exhaustive small scope: one execution, every combination of exit in {0,1} and file classes
